@@ -1,6 +1,7 @@
 import AgModel.Gen.Consts
 import AgModel.Proofs.Votor
 import AgModel.Proofs.VotorExt
+import AgModel.Proofs.NodeFallback
 /-!
 # C05 — a correct node's own votes obey the voting rules under every event order
 
@@ -12,6 +13,11 @@ standstill bundles, events for retired and pruned slots, in any order.
 
 `log es` is the history, newest first, of the events received (`.ev`) and of everything handed to
 `All2All::broadcast` (`.out`). In `log = a ++ x :: b` the list `b` is what happened *before* `x`.
+
+The clause "fallback votes only in slots where the node already voted" is not a property of Votor alone
+(`fallback_before_vote_without_pool`); it is proved at the end of this file for the composed node
+`AgModel.Node` (the node's own pool feeding Votor through the event queue): `node_fallback_only_after_vote`,
+`node_fallback_not_for_own_block`.
 -/
 namespace AgModel.Votor
 
@@ -135,9 +141,10 @@ def PoolOrdered : List Item → Prop :=
     | _ => True)
 
 /-- **Fallback votes only in slots where the node already voted** — `_partial`: relative to the
-    pool-side guarantee `PoolOrdered` (the full statement composes this with the Pool model of C06;
-    Votor alone, fed a safe-to event for an unvoted slot, broadcasts the fallback vote and *then* the
-    skip vote: see `fallback_before_vote_without_pool`). -/
+    pool-side guarantee `PoolOrdered` (Votor alone, fed a safe-to event for an unvoted slot, broadcasts
+    the fallback vote and *then* the skip vote: see `fallback_before_vote_without_pool`). The
+    assumption is discharged for the composed node (Pool ∘ Votor) below: `node_pool_ordered`,
+    `node_fallback_only_after_vote`. -/
 theorem fallback_only_after_vote_partial (es : List Event) (hp : PoolOrdered (log es))
     (a b : List Item) (s : Nat) (x : Item)
     (hx : x = .out (.skipFallback s) ∨ ∃ h, x = .out (.notarFallback s h))
@@ -285,3 +292,171 @@ theorem duplicate_final_on_repeated_cert :
      .out (.notar 1 9 0 0), .ev (.block 1 ⟨9, 0, 0⟩), .out (.timer 0)] := by decide
 
 end AgModel.Votor
+
+/-! ## The composed node: the pool-side ordering is a theorem
+
+`Model/Node.lean` wires the pool model (C03/C06) to Votor through the FIFO event queue as `consensus.rs` does; `NodeOp` /
+`nodeStep` / `nodeRun` (`Proofs/NodeRun.lean`) let the adversary choose every interleaving of network votes, certificates,
+reconstructed blocks, queue pumps, blockstore events and timeouts. The node's own votes reach its own pool like everybody
+else's: as network votes (`All2All::broadcast` delivers to the sender as well). The only premise is unforgeability:
+`OwnVotesFromVotor own n sent ops` — every `recvVote v` with `v.signer = own` in `ops` is matched (`outMatches`: kind,
+slot, and block for notar / notar-fallback) by a broadcast of the node's own Votor earlier in the same run. -/
+namespace AgModel.Node
+open AgModel AgModel.NodePanic
+
+/-- **The pool-side guarantee holds in the composed node**: in every run from the fresh node satisfying the unforgeability
+    premise, Votor's history is that of a list of well-formed events and satisfies `PoolOrdered` — every safe-to-notar /
+    safe-to-skip event reached Votor after Votor cast its initial vote of that slot. (Chain: the pool stores an own vote
+    only when it is delivered, hence after it was broadcast, `poolStep_own`; the pool raises the events only when the
+    own vote is stored, `s2n_s2s_sound` → `poolStep_goodO`; the queue only delays them.) -/
+theorem node_pool_ordered (e : Pool.Epoch) (ops : List NodeOp)
+    (hown : OwnVotesFromVotor e.own { pool := { epoch := e } } [] ops = true) :
+    ∃ es, (∀ ev ∈ es, Votor.Event.wellFormed ev) ∧
+      (nodeRun { pool := { epoch := e } } ops).votor = Votor.run Votor.init es ∧ Votor.PoolOrdered (Votor.log es) := by
+  have i0 : VInv ({ pool := { epoch := e } } : Node) := ⟨⟨[], by simp, rfl⟩, by intro x hx; simp at hx⟩
+  obtain ⟨es, hes, hrun⟩ := (nodeRun_inv ops _ i0).hist
+  refine ⟨es, hes, hrun, ?_⟩
+  have hf := (nodeRun_finv e ops [] _ (FInv.init e) hown).hist
+  rw [hrun] at hf
+  refine Votor.Hist.mono ?_ hf
+  intro x past hx
+  cases x with
+  | out o => trivial
+  | ev ev =>
+    cases ev with
+    | safeToNotar s h =>
+      rcases hx with hx | ⟨h', _, ps, ph, hx⟩
+      · exact ⟨_, hx, by simp [Votor.Item.isInit]⟩
+      · exact ⟨_, hx, by simp [Votor.Item.isInit]⟩
+    | safeToSkip s =>
+      obtain ⟨h', ps, ph, hx⟩ := hx
+      exact ⟨_, hx, by simp [Votor.Item.isInit]⟩
+    | _ => trivial
+
+/-- **Fallback votes are backed by the right own vote**: whenever the node's Votor casts a notar-fallback vote for
+    `(s, h)`, it has before cast a skip vote for `s` or a notar vote for a *different* block of `s`; whenever it casts a
+    skip-fallback vote for `s`, it has before cast a notar vote for `s`. -/
+theorem node_fallback_backed (e : Pool.Epoch) (ops : List NodeOp)
+    (hown : OwnVotesFromVotor e.own { pool := { epoch := e } } [] ops = true) (a b : List Votor.Item) (s : Nat) :
+    (∀ h, (nodeRun { pool := { epoch := e } } ops).votor.log = a ++ .out (.notarFallback s h) :: b →
+      .out (.skip s) ∈ b ∨ ∃ h' ps ph, h' ≠ h ∧ .out (.notar s h' ps ph) ∈ b) ∧
+    ((nodeRun { pool := { epoch := e } } ops).votor.log = a ++ .out (.skipFallback s) :: b →
+      ∃ h ps ph, .out (.notar s h ps ph) ∈ b) := by
+  have i0 : VInv ({ pool := { epoch := e } } : Node) := ⟨⟨[], by simp, rfl⟩, by intro x hx; simp at hx⟩
+  obtain ⟨es, _, hrun⟩ := (nodeRun_inv ops _ i0).hist
+  have hf := (nodeRun_finv e ops [] _ (FInv.init e) hown).hist
+  constructor
+  · intro h hl
+    have hl' : Votor.log es = a ++ .out (.notarFallback s h) :: b := by rw [← hl, hrun]; rfl
+    obtain ⟨rest, rfl⟩ := (Votor.fallback_only_after_condition es a b s).1 h hl'
+    have := hf.split (a ++ [.out (.notarFallback s h)]) (.ev (.safeToNotar s h)) rest (by rw [hl]; simp)
+    rcases this with hx | ⟨h', hne, ps, ph, hx⟩
+    · exact Or.inl (List.mem_cons_of_mem _ hx)
+    · exact Or.inr ⟨h', ps, ph, hne, List.mem_cons_of_mem _ hx⟩
+  · intro hl
+    have hl' : Votor.log es = a ++ .out (.skipFallback s) :: b := by rw [← hl, hrun]; rfl
+    obtain ⟨rest, rfl⟩ := (Votor.fallback_only_after_condition es a b s).2 hl'
+    have := hf.split (a ++ [.out (.skipFallback s)]) (.ev (.safeToSkip s)) rest (by rw [hl]; simp)
+    obtain ⟨h', ps, ph, hx⟩ := this
+    exact ⟨h', ps, ph, List.mem_cons_of_mem _ hx⟩
+
+/-- **Fallback votes only in slots where the node already voted** (the clause of C05, in full): for every run of the
+    composed node from its initial state — every interleaving of network votes and certificates (anything other
+    validators can sign), reconstructed blocks, queue pumps, blockstore events and timeouts, across window boundaries and
+    pruning — in which votes signed by the node itself only come from its own Votor, every notar-fallback / skip-fallback
+    vote the Votor casts for slot `s` is preceded in its history by an initial vote (notar or skip) of the Votor in `s`. -/
+theorem node_fallback_only_after_vote (e : Pool.Epoch) (ops : List NodeOp)
+    (hown : OwnVotesFromVotor e.own { pool := { epoch := e } } [] ops = true)
+    (a b : List Votor.Item) (s : Nat) (x : Votor.Item)
+    (hx : x = .out (.skipFallback s) ∨ ∃ h, x = .out (.notarFallback s h))
+    (hl : (nodeRun { pool := { epoch := e } } ops).votor.log = a ++ x :: b) : ∃ y ∈ b, y.isInit s = true := by
+  obtain ⟨h1, h2⟩ := node_fallback_backed e ops hown a b s
+  rcases hx with rfl | ⟨h, rfl⟩
+  · obtain ⟨h', ps, ph, hm⟩ := h2 hl
+    exact ⟨_, hm, by simp [Votor.Item.isInit]⟩
+  · rcases h1 h hl with hm | ⟨h', ps, ph, _, hm⟩
+    · exact ⟨_, hm, by simp [Votor.Item.isInit]⟩
+    · exact ⟨_, hm, by simp [Votor.Item.isInit]⟩
+
+/-- the same on what an observer of the network sees: in the list of all broadcasts of the run, in order, every fallback
+    vote for `s` comes after a notar or skip vote for `s` -/
+theorem node_fallback_only_after_vote_broadcasts (e : Pool.Epoch) (ops : List NodeOp)
+    (hown : OwnVotesFromVotor e.own { pool := { epoch := e } } [] ops = true)
+    (pre post : List Votor.Out) (s : Nat) (x : Votor.Out)
+    (hx : x = .skipFallback s ∨ ∃ h, x = .notarFallback s h)
+    (hl : nodeRunOuts { pool := { epoch := e } } ops = pre ++ x :: post) :
+    ∃ y ∈ pre, y = .skip s ∨ ∃ h ps ph, y = .notar s h ps ph := by
+  have hout := nodeRun_outs ops ({ pool := { epoch := e } } : Node)
+  rw [hl] at hout
+  have h0 : outsOf ({ pool := { epoch := e } } : Node).votor.log = [.timer 0] := rfl
+  rw [h0, ← List.append_assoc] at hout
+  obtain ⟨a, b, hab, hb⟩ := outsOf_split hout
+  obtain ⟨y, hy, hyi⟩ := node_fallback_only_after_vote e ops hown a b s (.out x)
+    (by rcases hx with rfl | ⟨h, rfl⟩; exact Or.inl rfl; exact Or.inr ⟨h, rfl⟩) hab
+  cases y with
+  | ev ev => simp [Votor.Item.isInit] at hyi
+  | out o =>
+    have ho : o ∈ [Votor.Out.timer 0] ++ pre := by rw [← hb]; exact mem_outsOf.mpr hy
+    cases o with
+    | notar s' h ps ph =>
+      simp only [Votor.Item.isInit, beq_iff_eq] at hyi; subst hyi
+      exact ⟨_, by simpa using ho, Or.inr ⟨h, ps, ph, rfl⟩⟩
+    | skip s' =>
+      simp only [Votor.Item.isInit, beq_iff_eq] at hyi; subst hyi
+      exact ⟨_, by simpa using ho, Or.inl rfl⟩
+    | _ => simp [Votor.Item.isInit] at hyi
+
+/-- **Safe-to-notar fallback votes are never for the block the node notarized**: in such a run, if the Votor casts a
+    notar-fallback vote for `(s, h)` and (at any time) a notar vote for `(s, h')`, then `h' ≠ h`. -/
+theorem node_fallback_not_for_own_block (e : Pool.Epoch) (ops : List NodeOp)
+    (hown : OwnVotesFromVotor e.own { pool := { epoch := e } } [] ops = true) (s h h' ps ph : Nat)
+    (hf : .out (.notarFallback s h) ∈ (nodeRun { pool := { epoch := e } } ops).votor.log)
+    (hn : .out (.notar s h' ps ph) ∈ (nodeRun { pool := { epoch := e } } ops).votor.log) : h' ≠ h := by
+  have i0 : VInv ({ pool := { epoch := e } } : Node) := ⟨⟨[], by simp, rfl⟩, by intro x hx; simp at hx⟩
+  obtain ⟨es, _, hrun⟩ := (nodeRun_inv ops _ i0).hist
+  obtain ⟨a, b, hab⟩ := List.append_of_mem hf
+  have hlog : (nodeRun { pool := { epoch := e } } ops).votor.log = Votor.log es := by rw [hrun]; rfl
+  have hsub : ∀ y ∈ b, y ∈ Votor.log es := by intro y hy; rw [← hlog, hab]; simp [hy]
+  rw [hlog] at hn
+  rcases (node_fallback_backed e ops hown a b s).1 h hab with hm | ⟨h'', ps', ph', hne, hm⟩
+  · have := Votor.initial_vote_unique es s _ _ hn (hsub _ hm) (by simp [Votor.Item.isInit]) (by simp [Votor.Item.isInit])
+    cases this
+  · have := Votor.initial_vote_unique es s _ _ hn (hsub _ hm) (by simp [Votor.Item.isInit]) (by simp [Votor.Item.isInit])
+    simp only [Votor.Item.out.injEq, Votor.Out.notar.injEq] at this
+    rw [this.2.1]; exact hne
+
+/-! ### the premise is needed, and satisfiable by runs in which the fallback votes are really cast -/
+
+/-- 5 equal validators, the node is validator 0 -/
+def demoEpoch : Pool.Epoch := { stakes := [1, 1, 1, 1, 1], own := 0 }
+
+/-- the node times out in window 0 (skip votes for 1, 2, 3), its skip vote for slot 2 loops back into its pool, two others
+    notarize block 7 of slot 2 whose parent `(1, 5)` has a notar-fallback certificate: the pool raises safe-to-notar and
+    Votor answers with the notar-fallback vote -/
+def demoS2N : List NodeOp :=
+  [.timeout 1, .recvCert ⟨.nf, 1, 5, [1, 2], [3], 3⟩, .recvVote ⟨.skip, 2, 0, 0⟩, .recvVote ⟨.notar, 2, 7, 1⟩,
+   .recvVote ⟨.notar, 2, 7, 2⟩, .poolBlock (2, 7) (1, 5), .pump, .pump]
+
+/-- non-vacuity (safe-to-notar): the premise holds and the fallback vote is cast, after the skip vote -/
+example : OwnVotesFromVotor 0 { pool := { epoch := demoEpoch } } [] demoS2N = true ∧
+    nodeRunOuts { pool := { epoch := demoEpoch } } demoS2N =
+      [.skip 1, .skip 2, .skip 3, .cert .notarFallback 1 5, .notarFallback 2 7] := by decide +kernel
+
+/-- non-vacuity (safe-to-skip): the node notarizes block 9 of slot 1, the vote loops back, two others skip: safe-to-skip,
+    skip-fallback vote (and the skip votes for the rest of the window) -/
+example :
+    let ops : List NodeOp := [.votorBlock 1 ⟨9, 0, 0⟩, .recvVote ⟨.notar, 1, 9, 0⟩, .recvVote ⟨.skip, 1, 0, 1⟩,
+      .recvVote ⟨.skip, 1, 0, 2⟩, .pump]
+    OwnVotesFromVotor 0 { pool := { epoch := demoEpoch } } [] ops = true ∧
+    nodeRunOuts { pool := { epoch := demoEpoch } } ops = [.notar 1 9 0 0, .skipFallback 1, .skip 2, .skip 3] := by
+  decide +kernel
+
+/-- **The unforgeability premise is necessary**: the same run as `demoS2N` without the timeout — the skip vote "of validator
+    0" for slot 2 delivered to node 0 was never cast by its Votor (a forgery) — makes the pool raise safe-to-notar for the
+    unvoted slot, and Votor broadcasts the notar-fallback vote *before* its initial (skip) vote of slot 2. -/
+theorem node_fallback_needs_unforgeability :
+    OwnVotesFromVotor 0 { pool := { epoch := demoEpoch } } [] demoS2N.tail = false ∧
+    nodeRunOuts { pool := { epoch := demoEpoch } } demoS2N.tail =
+      [.cert .notarFallback 1 5, .notarFallback 2 7, .skip 1, .skip 2, .skip 3] := by decide +kernel
+
+end AgModel.Node
